@@ -44,3 +44,22 @@ Example C01_rejects_wrong_output :
     ([[(0,0);(10,0);(10,10);(0,10)]] ++ [[(5,5);(15,5);(15,15);(5,15)]])%Z []
     [0; 5; 10; 15]%Q = false.
 Proof. vm_compute. reflexivity. Qed.
+
+(* the sweep's contribution rule for closed edges, as TRANSLATED FROM /repo's CURRENT SOURCE on every
+   run (Gen/Decisions_gen.v, clipper_base.go:isContributingClosed): for every fill rule, clip type and
+   pair of wind counts an edge contributes to the solution exactly when the expected region
+   (Base/Geom.v: expected ct (filled fr .) (filled fr .)) differs across it *)
+From Clip Require Import Gen.Decisions_gen Model.DecisionProofs.
+Theorem C01_contribution_rule :
+  forall fr ct wc wc2 is_subj, counts_ok fr wc wc2 ->
+    gen_isContributingClosed fr ct wc wc2 is_subj = boundary_of_expected fr ct wc wc2 is_subj.
+Proof. exact isContributingClosed_is_boundary. Qed.
+Example C01_contribution_rule_nonvacuous :
+  counts_ok Positive 1 (-1) /\ gen_isContributingClosed Positive Difference 1 (-1) true = true /\
+  counts_ok EvenOdd (-1) 1 /\ gen_isContributingClosed EvenOdd Intersection (-1) 1 false = true.
+Proof.
+  unfold counts_ok. split; [split; [discriminate | intro H; discriminate H]|].
+  split; [reflexivity|]. split; [|reflexivity].
+  split; [discriminate | intros _; split; right; reflexivity].
+Qed.
+Print Assumptions C01_contribution_rule.
